@@ -66,6 +66,7 @@ type input struct {
 	NoCoq   bool        `json:"nocoq,omitempty"`  // too large for the in-Coq evaluation
 	Expect  string      `json:"expect,omitempty"` // "ok": a structured, unmodified message must be accepted
 	Batch   []input     `json:"batch,omitempty"`  // kind "batch": run all (used for the child process)
+	Frames  []string    `json:"frames,omitempty"` // kind "history": frames decoded in this order by one process (hex)
 	Pad     uint32      `json:"pad,omitempty"`    // frame: Stream is followed by Pad copies of PadByte (30 MiB bodies)
 	PadByte byte        `json:"pad_byte,omitempty"`
 }
@@ -826,6 +827,12 @@ func run(c *hx.Ctx, in input) {
 		doPayload(c, in)
 	case "frame":
 		doFrame(c, in)
+	case "history":
+		if in.Label == "child-verdicts" {
+			childHistory(c, in)
+		} else {
+			(&world{c: c}).doHistorySeq(in)
+		}
 	case "batch":
 		for _, x := range in.Batch {
 			x.NoCoq = true
